@@ -116,15 +116,24 @@ fn read_status_json(path: &std::path::Path) -> Option<Summary> {
 fn main() {
     world::install_panic_recorder();
     let thorough = is_thorough();
+    // one worker process per mode/default configuration, each with its own world in nested namespaces
+    let me = vcommon::result::worker();
+    if me.is_none() && std::env::var("VERIF_REPLAY").is_err() && std::env::var("VERIF_NO_SHARD").is_err() {
+        let mut res = EngineResult::new("C11");
+        vcommon::result::run_workers(&mut res, 6, "ip addr add 168.63.129.16/32 dev lo; ip addr add 169.254.169.254/32 dev lo; mount -t tmpfs tmpfs /var/lib/azure-proxy-agent; mount -t tmpfs tmpfs /var/log/azure-proxy-agent; mkdir -p /var/log/azure-proxy-agent/events;");
+        res.cov("workers", 6u64);
+        std::process::exit(res.finish());
+    }
+    let (wi, wn) = me.unwrap_or((0, 1));
     let w = World::start(WorldOpts::default());
     let mut res = EngineResult::new("C11");
     let mut callers = vec![
-        Caller { label: "alice", user: "alice", uid: 1001, is_root: false, exe: "/usr/bin/vt-curl", arg: "111", pid: 0, dest: IMDS },
-        Caller { label: "bob", user: "bob", uid: 1002, is_root: false, exe: "/usr/bin/vt-wget", arg: "222", pid: 0, dest: IMDS },
-        Caller { label: "root-waagent", user: "root", uid: 0, is_root: true, exe: "/usr/bin/vt-waagent", arg: "333", pid: 0, dest: WS },
-        Caller { label: "root-ext", user: "root", uid: 0, is_root: true, exe: "/usr/bin/vt-ext", arg: "444", pid: 0, dest: WS },
+        Caller { label: "alice", user: "alice", uid: 1001, is_root: false, exe: "/usr/bin/vt-curl", arg: "100111", pid: 0, dest: IMDS },
+        Caller { label: "bob", user: "bob", uid: 1002, is_root: false, exe: "/usr/bin/vt-wget", arg: "100222", pid: 0, dest: IMDS },
+        Caller { label: "root-waagent", user: "root", uid: 0, is_root: true, exe: "/usr/bin/vt-waagent", arg: "100333", pid: 0, dest: WS },
+        Caller { label: "root-ext", user: "root", uid: 0, is_root: true, exe: "/usr/bin/vt-ext", arg: "100444", pid: 0, dest: WS },
         // the same process as root-waagent, talking to the HostGAPlugin endpoint (same IP, other port)
-        Caller { label: "root-waagent@hostga", user: "root", uid: 0, is_root: true, exe: "/usr/bin/vt-waagent", arg: "333", pid: 0, dest: HOSTGA },
+        Caller { label: "root-waagent@hostga", user: "root", uid: 0, is_root: true, exe: "/usr/bin/vt-waagent", arg: "100333", pid: 0, dest: HOSTGA },
     ];
     for i in 0..callers.len() {
         if callers[i].dest == HOSTGA {
@@ -178,7 +187,10 @@ fn main() {
     let mut hist_n = 0u64;
     let st_shared = w.shared.get_agent_status_shared_state();
 
-    for (mode, default_allow) in &configs {
+    for (ci, (mode, default_allow)) in configs.iter().enumerate() {
+        if ci % wn != wi {
+            continue;
+        }
         let pol = policy(mode, *default_allow);
         // baseline outcomes under a rule set that allows everything (mode disabled), per request kind
         w.set_rules(IMDS, policy("disabled", true).to_item());
